@@ -464,6 +464,9 @@ func (s *c06state) runVariant(v Variant) {
 				c := Case{Format: v.Format, Sign: "callback", Class: "signer", Signer: &SignerFault{FailCall: i, ReadN: rn}}
 				s.checkFaulty(&c, s.rt.ExecCase(w, &c), ref)
 			}
+			// (the failing call hands back some bytes together with its error)
+			cb := Case{Format: v.Format, Sign: "callback", Class: "signer", Signer: &SignerFault{FailCall: i, ReadN: -1, WithBytes: true}}
+			s.checkFaulty(&cb, s.rt.ExecCase(w, &cb), ref)
 		}
 	}
 }
